@@ -242,3 +242,50 @@ Example C11_notifications_example :
   nrun st [NDelete (2%N, true) 20%N 5; NBlock (2%N, false) [Some 1%N; Some 1%N]; NBlock (3%N, false) [Some 1%N; None]] =
   {| n_notes := [(1%N, 20%N, 5)]; n_blocks := [(1%N, 3%N); (2%N, 1%N)] |}.
 Proof. vm_compute. reflexivity. Qed.
+
+(* ---------------------------------------------------------------------------------------------
+   Tie to the code by translation + proof: the two oracle handlers are GENERATED on every run from /repo's current
+   Go source (translator/gen_gofuncs.go -> Gen/GoOracle.v); the feed model of the theorems above is their
+   interpretation. *)
+From JK Require Import Base.GoSem Gen.GoOracle Proofs.GoTieOracle.
+
+(* CreateFeed stores the feed exactly when it reports success, as its last effect, and success means: the name was
+   free, the creator parses and pays the deposit, the deposit account parses and receives it *)
+Theorem C11_code_tie_CreateFeed :
+  forall taken c1 c2 c3 c4,
+    gen_CreateFeed taken c1 c2 c3 c4 =
+    GVal (if taken then [] else if negb c1 then [] else
+          app [Ev "charge-deposit"%string []] (if negb c2 then [] else if negb c3 then [] else
+          app [Ev "forward-deposit"%string []] (if negb c4 then [] else [Ev "store-feed"%string []])),
+          negb taken && c1 && c2 && c3 && c4).
+Proof. exact gen_CreateFeed_spec. Qed.
+Print Assumptions C11_code_tie_CreateFeed.
+
+(* UpdateFeed writes only when the feed exists and its recorded owner string is the signer's *)
+Theorem C11_code_tie_UpdateFeed :
+  forall found not_owner,
+    gen_UpdateFeed found not_owner =
+    GVal (if found && negb not_owner then [Ev "set-data"%string []; Ev "set-time"%string []; Ev "store-feed"%string []] else [],
+          found && negb not_owner).
+Proof. exact gen_UpdateFeed_spec. Qed.
+Print Assumptions C11_code_tie_UpdateFeed.
+
+(* the model's feed steps are the interpretations of the generated handlers on the reads taken from the model's state *)
+Theorem C11_code_tie_model_feed_steps :
+  forall st s name c1 c2 c3 c4 data now,
+    ostep st (OCreate s name (c1 && c2 && c3 && c4) now) =
+      match gen_CreateFeed (GoTieOracle.is_some (aget N.eqb st name)) c1 c2 c3 c4 with
+      | GVal (_, true) => (aset N.eqb st name {| f_owner := s; f_data := 0%N; f_time := now |}, Ok)
+      | _ => (st, Fail)
+      end /\
+    ostep st (OUpdate s name data now) =
+      match aget N.eqb st name with
+      | Some f =>
+          match gen_UpdateFeed true (negb (sp_eqb (f_owner f) s)) with
+          | GVal (_, true) => (aset N.eqb st name {| f_owner := f_owner f; f_data := data; f_time := now |}, Ok)
+          | _ => (st, Fail)
+          end
+      | None => match gen_UpdateFeed false false with GVal (_, true) => (st, Ok) | _ => (st, Fail) end
+      end.
+Proof. intros. split; [apply ocreate_is_the_interpretation | apply oupdate_is_the_interpretation]. Qed.
+Print Assumptions C11_code_tie_model_feed_steps.
